@@ -86,6 +86,7 @@ def item_marker_and_indent(ex):
 contract(Contract(
     target=M + ":MarkdownNormalizer.render_list",
     props=["C10"],
+    assumes=["Marko: a bullet list's `bullet` is one character (- + *)", 'contract R of render() for the children: it preserves _second_prefix, _list_spacing, _current_list_tight and leaves _prefix == _second_prefix'],
     params={"element": "ref:Element"},
     self_cls="MarkdownNormalizer",
     heap=HEAP,
